@@ -102,8 +102,9 @@ def run(ctx):
         ctx.count('pred.' + pred)
     # ------------------------------------------------------------------ initglobals on random records / extensions
     saved_recs = list(m.KNOWN_MINECRAFT_VERSION_RECORDS)
+    saved_list_object = m.KNOWN_MINECRAFT_VERSION_RECORDS
     ids_pool = ['1.8', '1.8.9', '1.9', '17w13a', '1.12-pre3', '1.16.5', '20w45a', '1.18\n', '1.x', '', 'é1.2',
-                '1', '1.', '1.2.3.4', '21w37a', 'Combat Test 8c']
+                '1', '1.', '1.2.3.4', '21w37a', 'Combat Test 8c', 'b1.8.1', 'a1.2.6', '3D Shareware v1.34', 'rc-1.19.2']
     try:
         for trial in range(ctx.scale(150, 2000)):
             def rec():
@@ -116,7 +117,11 @@ def run(ctx):
             cur = []
             for ext in steps:
                 cur = cur + ext
-                m.KNOWN_MINECRAFT_VERSION_RECORDS[:] = cur
+                if trial % 4 == 3:
+                    # the attribute is REBOUND to a new list (works as well as editing the list in place)
+                    m.KNOWN_MINECRAFT_VERSION_RECORDS = list(cur)
+                else:
+                    m.KNOWN_MINECRAFT_VERSION_RECORDS[:] = cur
                 m.initglobals(use_known_records=True)
                 got1 = tables_line(m)
                 m.initglobals(use_known_records=True)          # idempotence
@@ -148,6 +153,22 @@ def run(ctx):
                     badm = 'supported tables are not the projection of the supported records'
                 elif got2 != got1 or got3 != got1:
                     badm = 're-initialising is not idempotent'
+                else:
+                    # release tables: the supported records whose id is a dotted number (digits '.' digits ...);
+                    # ids with stray line ends are left to the model comparison
+                    import re as _re
+                    rel = {}
+                    for r in cur:
+                        if r.supported and '\n' not in r.id and _re.fullmatch(r'[0-9]+(\.[0-9]+)+', r.id):
+                            rel[r.id] = r.protocol
+                    relp = []
+                    for v in rel.values():
+                        if v not in relp:
+                            relp.append(v)
+                    if not any('\n' in r.id for r in cur) and (
+                            dict(m.RELEASE_MINECRAFT_VERSIONS) != rel or list(m.RELEASE_PROTOCOL_VERSIONS) != relp):
+                        badm = 'release tables %r / %r are not the projection of the supported dotted-number ids %r' % (
+                            dict(m.RELEASE_MINECRAFT_VERSIONS), list(m.RELEASE_PROTOCOL_VERSIONS), rel)
                 if not badm and protos:
                     # the predicates (other modules hold their own references to the tables) must follow
                     # the rebuilt order
@@ -165,6 +186,7 @@ def run(ctx):
                     ctx.violation(badm, {'records': [(r.id, r.protocol, r.supported) for r in cur]},
                                   key={'records': [(r.id, r.protocol, r.supported) for r in cur]})
     finally:
+        m.KNOWN_MINECRAFT_VERSION_RECORDS = saved_list_object
         m.KNOWN_MINECRAFT_VERSION_RECORDS[:] = saved_recs
         m.initglobals(use_known_records=True)
     # ---- contexts created (and used) BEFORE a rebuild must follow the rebuilt order
